@@ -97,3 +97,211 @@ Proof.
   pose proof (inv1_run g sched) as (_ & _ & _ & H4). unfold running.
   rewrite <- H4. apply filter_len_le.
 Qed.
+
+(* ---------------------------------------------------------------------------------------- *)
+(* Inv2: order and content (C01)                                                            *)
+(* ---------------------------------------------------------------------------------------- *)
+
+Definition phase1 (c : cpc) : bool :=
+  match c with CStart | CGet | CWait _ | CYield _ _ => true | _ => false end.
+
+Definition futs_ok (g : cfg) (fu : list fstate) : Prop :=
+  forall i r, nth_error fu i = Some (FFin r) -> r = outcome_of g i.
+
+Definition recv_ok (g : cfg) (re : list (nat * res)) : Prop :=
+  Forall (fun p => snd p = outcome_of g (fst p)) re.
+
+Definition flen_ok (s : state) : Prop :=
+  match fp s with
+  | FChk i | FPre i | FSubmit i _ => length (futs s) = i /\ pulled s = S i
+  | FPut i => length (futs s) = S i /\ pulled s = S i
+  | FNext => length (futs s) = pulled s
+  | _ => True
+  end.
+
+Definition Inv2 (g : cfg) (s : state) : Prop :=
+  recv_ok g (received s)
+  /\ futs_ok g (futs s)
+  /\ map fst (received s) = seq 0 (length (received s))
+  /\ (phase1 (cp s) = true ->
+        to_stop s = false /\
+        map fst (received s) ++ cidx s ++ tasks (q s) ++ fidx s = seq 0 (pulled s))
+  /\ (forall i r, cp s = CYield i r -> r = outcome_of g i)
+  /\ flen_ok s
+  /\ (cp s = CStart -> fp s = FIdle /\ futs s = [] /\ pulled s = 0 /\ received s = [] /\ q s = []).
+
+Lemma inv2_init g : Inv2 g (init g).
+Proof.
+  unfold Inv2, init, recv_ok, futs_ok, flen_ok, fidx, cidx; cbn.
+  repeat split; try constructor; try discriminate.
+  intros [|i] r H; discriminate.
+Qed.
+
+
+Lemma futs_ok_app g fu x :
+  futs_ok g fu -> (forall r, x = FFin r -> r = outcome_of g (length fu)) -> futs_ok g (fu ++ [x]).
+Proof.
+  intros H Hx i r Hn. destruct (Nat.lt_ge_cases i (length fu)) as [Hlt|Hge].
+  - rewrite nth_error_app1 in Hn by assumption. eauto.
+  - rewrite nth_error_app2 in Hn by assumption.
+    destruct (i - length fu) as [|k] eqn:E; cbn in Hn.
+    + inv Hn. assert (i = length fu) by lia. subst. auto.
+    + destruct k; discriminate.
+Qed.
+
+Lemma futs_ok_set g fu n x :
+  futs_ok g fu -> (forall r, x = FFin r -> r = outcome_of g n) -> futs_ok g (set_nth n x fu).
+Proof.
+  intros H Hx i r Hn. destruct (Nat.eq_dec n i) as [->|Hne].
+  - apply nth_error_set_nth_eq in Hn. symmetry in Hn. auto.
+  - rewrite nth_error_set_nth_neq in Hn by assumption. eauto.
+Qed.
+
+Lemma seq_prefix_gen a : forall b st n, a ++ b = seq st n -> a = seq st (length a).
+Proof.
+  induction a as [|x a IH]; intros b st n H; cbn; [reflexivity|].
+  destruct n as [|n]; cbn in H; [discriminate|]. inv H. f_equal. eapply IH; eauto.
+Qed.
+
+Lemma seq_prefix a b n : a ++ b = seq 0 n -> a = seq 0 (length a).
+Proof. apply seq_prefix_gen. Qed.
+
+Local Arguments seq : simpl never.
+
+(* the feeder's steps *)
+Lemma inv2_step_f g s s' e : Inv2 g s -> step_f g s = Some (s', e) -> Inv2 g s'.
+Proof.
+  destruct s as [f c p qq wq fu ts rs pu re dr ca]. unfold Inv2, flen_ok, fidx, cidx. cbn.
+  intros (HA & HB & HC & HD & HE & HF & HG) Hs.
+  unfold step_f, f_put, qfull, with_fp, with_q, with_pulled, with_rest, with_dropped, with_futs, with_workq in Hs;
+    cbn in Hs.
+  break_match_hyp Hs; inv Hs; cbn in *;
+  (split; [exact HA|]); (split; [|split; [exact HC|split; [|split; [exact HE|split]]]]).
+  all: try exact HB.
+  all: try (intros Hc; specialize (HG Hc); destruct HG as (HG1 & _); discriminate HG1).
+  all: try (intros Hp; specialize (HD Hp); destruct HD as (HD1 & HD2); split; [exact HD1|]).
+  all: try exact I.
+  all: try (destruct HF as [HF1 HF2]; subst).
+  all: try (rewrite ?app_length; cbn; lia).
+  all: try (rewrite ?tasks_app; cbn; rewrite ?app_nil_r in *; assumption).
+  all: try congruence.
+  (* pull: seq 0 (S pu) *)
+  all: try (rewrite seq_S; cbn; rewrite app_nil_r in HD2; rewrite <- HD2;
+            rewrite <- !app_assoc; reflexivity).
+  (* FPut: the task joins the queue *)
+  all: try (rewrite tasks_app; cbn; rewrite app_nil_r; rewrite <- HD2; rewrite <- !app_assoc; reflexivity).
+  (* futures appended *)
+  all: try (apply futs_ok_app; [exact HB|]; intros r Hr; try discriminate Hr; inv Hr;
+            unfold outcome_of; match goal with H : pre_of _ _ = _ |- _ => rewrite H end; reflexivity).
+Qed.
+
+Ltac solve_futs HB :=
+  first [ exact HB
+        | apply futs_ok_set; [exact HB|]; intros r0 Hr0; try discriminate Hr0; inv Hr0; reflexivity ].
+
+(* the pool workers' steps *)
+Lemma inv2_step_p g s j s' e : Inv2 g s -> step_p g s j = Some (s', e) -> Inv2 g s'.
+Proof.
+  destruct s as [f c p qq wq fu ts rs pu re dr ca]. unfold Inv2, flen_ok, fidx, cidx. cbn.
+  intros (HA & HB & HC & HD & HE & HF & HG) Hs.
+  unfold step_p, with_pp, with_workq, with_futs, with_calls in Hs; cbn in Hs.
+  break_match_hyp Hs; inv Hs; cbn in *;
+  (split; [exact HA|]); (split; [solve_futs HB|split; [exact HC|split; [exact HD|split; [exact HE|split]]]]).
+  all: try exact HF; try exact HG.
+  all: try (destruct f; rewrite ?set_nth_length; exact HF).
+  all: try (intros Hc; specialize (HG Hc); destruct HG as (-> & -> & -> & -> & ->); repeat split; destruct i; reflexivity).
+Qed.
+
+(* the consumer's steps *)
+Lemma inv2_step_c g s s' e : Inv2 g s -> step_c g s = Some (s', e) -> Inv2 g s'.
+Proof.
+  destruct s as [f c p qq wq fu ts rs pu re dr ca]. unfold Inv2, flen_ok, fidx, cidx. cbn.
+  intros (HA & HB & HC & HD & HE & HF & HG) Hs.
+  unfold step_c, after_recv, with_cp, with_fp, with_q, with_received, with_dropped, with_stop, with_futs in Hs;
+    cbn in Hs.
+  break_match_hyp Hs; inv Hs; cbn in *; unfold recv_ok in *.
+  all: split; [ first [ exact HA
+                      | apply Forall_app; split; [exact HA|];
+                        constructor; [cbn; eapply HE; reflexivity|constructor] ] |].
+  all: split; [ solve_futs HB |].
+  all: split; [ first [ exact HC
+                      | specialize (HD eq_refl); destruct HD as (_ & HD2);
+                        match type of HD2 with map fst ?r ++ ?i :: ?b = ?rhs =>
+                          assert (HX : (map fst r ++ [i]) ++ b = rhs) by (rewrite <- app_assoc; exact HD2) end;
+                        apply seq_prefix in HX;
+                        rewrite map_app, !app_length, map_length in *; cbn in *; exact HX ] |].
+  all: split; [ intros Hp; first [ discriminate Hp |
+                specialize (HD eq_refl); destruct HD as (HD1 & HD2); split; [exact HD1|];
+                try (specialize (HG eq_refl); destruct HG as (-> & -> & -> & -> & ->));
+                rewrite ?map_app, <- ?app_assoc; cbn in *; try assumption ] |].
+  all: split; [ intros i0 r0 Hy; first [ discriminate Hy | inv Hy;
+                match goal with H : nth_error _ _ = Some (FFin _) |- _ => apply HB in H; congruence end ] |].
+  all: split; [ | intros Hc; discriminate Hc ].
+  all: try (specialize (HG eq_refl); destruct HG as (-> & -> & -> & -> & ->); reflexivity).
+  all: try exact HF.
+  all: try (destruct f; rewrite ?set_nth_length; exact HF).
+Qed.
+
+Lemma inv2_step g s l s' e : Inv2 g s -> step g s l = Some (s', e) -> Inv2 g s'.
+Proof.
+  destruct l as [| |j]; cbn; intros H Hs;
+    [eapply inv2_step_f | eapply inv2_step_c | eapply inv2_step_p]; eauto.
+Qed.
+
+Lemma inv2_run g sched : Inv2 g (run step g (init g) sched).
+Proof. apply (inv_run step g (Inv2 g)); [intros; eapply inv2_step; eauto | apply inv2_init]. Qed.
+
+(* what the consumer has been handed is, in order, the outcome of element 0, 1, 2, ... *)
+Definition expected_prefix (g : cfg) (n : nat) : list (nat * res) :=
+  map (fun i => (i, outcome_of g i)) (seq 0 n).
+
+Lemma recv_shape g (re : list (nat * res)) :
+  recv_ok g re -> map fst re = seq 0 (length re) -> re = expected_prefix g (length re).
+Proof.
+  unfold expected_prefix. intros HA HC. rewrite <- HC. clear HC.
+  induction re as [|[i r] re IH]; cbn; [reflexivity|].
+  inv HA. cbn in *. subst. f_equal. apply IH. assumption.
+Qed.
+
+Lemma fifo_prefix g sched :
+  let s := run step g (init g) sched in
+  received s = expected_prefix g (length (received s)).
+Proof.
+  cbn. pose proof (inv2_run g sched) as (HA & _ & HC & _). apply recv_shape; assumption.
+Qed.
+
+(* with return_exceptions = false every delivered outcome is a success *)
+Definition is_ok (r : res) : bool := match r with Ok _ => true | Err _ => false end.
+
+Definition InvOk (g : cfg) (s : state) : Prop :=
+  return_exc g = false ->
+  Forall (fun p => is_ok (snd p) = true) (received s) /\
+  (forall i r, cp s = CYield i r -> is_ok r = true).
+
+Lemma invok_step g s l s' e : InvOk g s -> step g s l = Some (s', e) -> InvOk g s'.
+Proof.
+  destruct s as [f c p qq wq fu ts rs pu re dr ca]. unfold InvOk. cbn.
+  intros H Hs Hre. specialize (H Hre). destruct H as [H1 H2].
+  destruct l as [| |j]; cbn in Hs.
+  - unfold step_f, f_put, qfull, with_fp, with_q, with_pulled, with_rest, with_dropped, with_futs, with_workq in Hs;
+      cbn in Hs.
+    break_match_hyp Hs; inv Hs; cbn in *; split; assumption.
+  - unfold step_c, after_recv, with_cp, with_fp, with_q, with_received, with_dropped, with_stop, with_futs in Hs;
+      cbn in Hs. rewrite Hre in Hs.
+    break_match_hyp Hs; inv Hs; cbn in *;
+      (split; [ first [ assumption | apply Forall_app; split; [assumption|]; constructor; [cbn; eapply H2; reflexivity|constructor] ]
+              | intros i0 r0 Hy; first [discriminate Hy | inv Hy; reflexivity | eapply H2; eassumption] ]).
+  - unfold step_p, with_pp, with_workq, with_futs, with_calls in Hs; cbn in Hs.
+    break_match_hyp Hs; inv Hs; cbn in *; split; assumption.
+Qed.
+
+Lemma fifo_no_exc_delivered g sched :
+  return_exc g = false ->
+  Forall (fun p => is_ok (snd p) = true) (received (run step g (init g) sched)).
+Proof.
+  intros Hre.
+  assert (H : InvOk g (run step g (init g) sched)).
+  { apply (inv_run step g (InvOk g)); [intros; eapply invok_step; eauto|].
+    unfold InvOk, init; cbn. intros _. split; [constructor|discriminate]. }
+  apply H; assumption.
+Qed.
